@@ -39,7 +39,19 @@ for n in names:
     json.dump(meta, open(os.path.join(d, "meta.json"), "w"), indent=1)
     rows.append((n, prop, verdict, (obl[0] if obl else ""), confirmed))
     print(n, verdict, obl[:1], "native-confirmed" if confirmed else "", flush=True)
+# rebuild the whole table from every meta.json (so a partial run keeps the other rows)
+allrows = []
+for n in sorted(d for d in os.listdir(os.path.join(V, "seeded")) if os.path.isdir(os.path.join(V, "seeded", d))):
+    meta = json.load(open(os.path.join(V, "seeded", n, "meta.json")))
+    cb = meta.get("caught_by") or {}
+    allrows.append((n, meta["property"], "harmless refactoring" if meta.get("kind", "").startswith("harmless") else "defect",
+                    cb.get("verdict", "not run"), (cb.get("failed_obligations") or [""])[0], cb.get("counterexample_replayed_natively", False)))
 with open(os.path.join(V, "seeded", "RESULTS.md"), "w") as f:
-    f.write("| seeded change | property | verdict | first failed obligation | counterexample replayed on the real code |\n|---|---|---|---|---|\n")
-    for r in rows:
-        f.write("| %s | %s | %s | `%s` | %s |\n" % (r[0], r[1], r[2], r[3], "yes" if r[4] else "no"))
+    f.write("| seeded change | property | kind | verdict | first failed obligation | counterexample replayed on the real code |\n|---|---|---|---|---|---|\n")
+    for r in allrows:
+        f.write("| %s | %s | %s | %s | `%s` | %s |\n" % (r[0], r[1], r[2], r[3], r[4], "yes" if r[5] else ("no" if r[2] == "defect" else "-")))
+    d = [r for r in allrows if r[2] == "defect"]
+    h = [r for r in allrows if r[2] != "defect"]
+    f.write("\n%d defects: %d caught, %d missed, %d undecided.  %d harmless refactorings: %d quiet, %d false alarm, %d undecided (exit 2/3: a loop under contract was moved or renamed).\n" % (
+        len(d), len([r for r in d if r[3] == "caught"]), len([r for r in d if r[3] == "MISSED"]), len([r for r in d if r[3].startswith("UNDECIDED")]),
+        len(h), len([r for r in h if r[3].startswith("quiet")]), len([r for r in h if r[3] == "FALSE ALARM"]), len([r for r in h if r[3].startswith("UNDECIDED")])))
